@@ -5,8 +5,8 @@
    `Spectrum.to_file` / `Spectrum.from_file` / `Numerics.array_to_file` / `Numerics.array_from_file` is modelled:
    comment lines, `str.strip`, `str.split()` (Python's whitespace class), the shape / `folded|unfolded` / quoted-label
    header, `line.split('"')[1::2]`, the data and mask lines, the pre-1.3 format (no flag word, no mask line), universal
-   newlines, `readline`, and the part of `Spectrum.__new__` that the readers and the unpickler use (label count check,
-   `mask_corners`).
+   newlines, `readline`, and the primitives (`maNew`, `asanyarray`, `setFlat`, …) of which the TRANSLATED `Spectrum.__new__`,
+   `mask_corners`, `unmask_all`, `__array_finalize__` are made, with `construct` as the constructor's normal form.
 
    The WRITERS (`to_file`, `array_to_file`), the READERS (`from_file`, `array_from_file`), the gzip/plain open dispatch and
    the pickle reduce tuple / unpickler call are not written here: they are regenerated from the current source into
@@ -149,7 +149,9 @@ structure Spec where
   extrapX : Option Str
 deriving DecidableEq, Repr
 
-/-- dynamically typed Python values that travel through the reduce tuple / the constructor call -/
+/-- dynamically typed Python values that travel through the reduce tuple / the constructor call.
+    `nomask` = `numpy.ma.nomask`, `ty` = a type object (`float`), `str` = a Python `str`, `spec` = an existing Spectrum passed
+    as `data` (the copy-constructor case of `Spectrum.__new__`). -/
 inductive PyVal where
   | none
   | bool (b : Bool)
@@ -157,6 +159,10 @@ inductive PyVal where
   | marr (bits : List Bool)
   | strs (l : List Str)
   | num (t : Str)
+  | nomask
+  | ty (name : String)
+  | str (s : Str)
+  | spec (fs : Spec)
 deriving DecidableEq, Repr
 
 def getData (fs : Spec) : PyVal := .arr fs.shape fs.data
@@ -169,37 +175,285 @@ def numVal (x : Option Str) : PyVal := match x with | Option.none => .none | som
 def getPopIds (fs : Spec) : PyVal := labelsVal fs.popIds
 def getExtrapX (fs : Spec) : PyVal := numVal fs.extrapX
 
-/-- `Spectrum.mask_corners`: `mask.flat[0] = mask.flat[-1] = True` -/
+/-- `Spectrum.mask_corners`: `mask.flat[0] = mask.flat[-1] = True` (normal form, for a non-empty mask) -/
 def maskCorners (m : List Bool) : List Bool := (m.set 0 true).set (m.length - 1) true
 
-/-- `Spectrum.__new__(data, mask, mask_corners, data_folded, check_folding, pop_ids=…, extrap_x=…)` for a plain array
-    `data` (the only case the readers and the unpickler produce).  `check_folding` only controls warnings.
-    `none` = the call raises (wrong label count, shapes that do not match, wrong argument types). -/
-def construct (data mask maskCornersArg dataFolded checkFolding popIds extrapX : PyVal) : Option Spec :=
-  match data, maskCornersArg, checkFolding with
-  | .arr shape toks, .bool mc, .bool _ =>
-    if toks.length ≠ prodL shape then Option.none else
-    let m? : Option (List Bool) := match mask with
-      | .none => some (List.replicate toks.length false)
-      | .marr bits => if bits.length = toks.length then some bits else Option.none
+/-! ## the object `Spectrum.__new__` builds (what the TRANSLATED constructor is made of)
+
+   `tools/gen_FileIO.py` translates `Spectrum.__new__`, `Spectrum.mask_corners`, `Spectrum.unmask_all` and
+   `Spectrum.__array_finalize__` statement by statement into `Gen.FileIO.spectrumNew`, `maskCornersM`, `unmaskAllM`,
+   `arrayFinalize` over the primitives below.  numpy's own `MaskedArray.__new__`, `asanyarray`, `make_mask_none`, `ndarray.view`,
+   flat / list-of-slices indexing are hand-written primitives (tied by K: ops `c14.new`, `c14.method`). -/
+
+/-- a masked array with the attributes dadi attaches.  An attribute that has not been set is `none` (a plain
+    `MaskedArray` has no `folded`); `warnings` = the `logger.warning` calls made while it was built. -/
+structure Obj where
+  shape : List Nat
+  data : List Str
+  mask : List Bool
+  fillValue : PyVal
+  folded : Option PyVal
+  popIds : Option PyVal
+  extrapX : Option PyVal
+  warnings : List Str
+deriving DecidableEq, Repr
+
+/-- the attributes of the model's object, in the order of `Obj` -/
+def objFields : List String := ["data", "mask", "fill_value", "folded", "pop_ids", "extrap_x"]
+
+def asBool : PyVal → Option Bool
+  | .bool b => some b
+  | _ => Option.none
+/-- `None` or a list of str -/
+def asLabels : PyVal → Option (Option (List Str))
+  | .none => some Option.none
+  | .strs l => some (some l)
+  | _ => Option.none
+/-- `None` or a number -/
+def asNum : PyVal → Option (Option Str)
+  | .none => some Option.none
+  | .num t => some (some t)
+  | _ => Option.none
+
+/-- the typed view the file / pickle theorems use: `folded` must be a bool, `pop_ids` None or a list of str, `extrap_x` None
+    or a number (anything else is outside the model; not exercised) -/
+def Obj.toSpec (o : Obj) : Option Spec :=
+  o.folded.bind fun fv => (asBool fv).bind fun f =>
+  o.popIds.bind fun pv => (asLabels pv).bind fun p =>
+  o.extrapX.bind fun xv => (asNum xv).bind fun x =>
+  some { shape := o.shape, data := o.data, mask := o.mask, folded := f, popIds := p, extrapX := x }
+
+/-- an array-like value: shape, entries, and its own mask and Spectrum attributes if it is a Spectrum -/
+def baseOf : PyVal → Option (List Nat × List Str × Option Spec)
+  | .arr sh toks => if toks.length = prodL sh then some (sh, toks, Option.none) else Option.none
+  | .spec fs => if fs.data.length = prodL fs.shape ∧ fs.mask.length = fs.data.length then some (fs.shape, fs.data, some fs)
+                else Option.none
+  | _ => Option.none
+
+/-- `numpy.asanyarray(data)`: arrays and Spectrum objects pass through unchanged (lists / scalars are not modelled) -/
+def asanyarray (data : PyVal) : Option PyVal := (baseOf data).map fun _ => data
+
+/-- `numpy.ma.make_mask_none(data.shape)` -/
+def makeMaskNone (data : PyVal) : Option PyVal := (baseOf data).map fun b => .marr (List.replicate b.2.1.length false)
+
+def isNone (v : PyVal) : Bool := match v with | .none => true | _ => false
+def isNomask (v : PyVal) : Bool := match v with | .nomask => true | _ => false
+
+/-- Python `==` on the values the constructor compares (None, bool, lists of str): structural equality -/
+def pyEq (a b : PyVal) : Bool := a == b
+
+/-- truth value of `if x:` — `none` = not modelled (arrays raise, numbers depend on their value) -/
+def truthy : PyVal → Option Bool
+  | .none => some false
+  | .bool b => some b
+  | .strs l => some (!l.isEmpty)
+  | .str s => some (!s.isEmpty)
+  | .nomask => some false
+  | _ => Option.none
+
+/-- `len(x)` for a list of str; `none` = TypeError / not modelled -/
+def pyLen : PyVal → Option Nat
+  | .strs l => some l.length
+  | .str s => some s.length
+  | _ => Option.none
+
+/-- `hasattr(x, name)`: a Spectrum has `folded`, `pop_ids`, `extrap_x`; plain arrays and everything else do not -/
+def hasAttr (v : PyVal) (name : String) : Bool :=
+  match v with
+  | .spec _ => name == "folded" || name == "pop_ids" || name == "extrap_x"
+  | _ => false
+
+/-- `x.name`; `none` = AttributeError -/
+def getAttr (v : PyVal) (name : String) : Option PyVal :=
+  match v with
+  | .spec fs => if name == "folded" then some (.bool fs.folded) else if name == "pop_ids" then some (labelsVal fs.popIds)
+                else if name == "extrap_x" then some (numVal fs.extrapX) else Option.none
+  | _ => Option.none
+
+def UNSPECIFIED : Str := ['u', 'n', 's', 'p', 'e', 'c', 'i', 'f', 'i', 'e', 'd']
+def FLOAT_DEFAULT_FILL : Str := ['1', 'e', '+', '2', '0']
+
+/-- the `mask=` argument of `MaskedArray.__new__` for `n` entries: `nomask` → no mask given (`none`), `None` / `False` →
+    nothing masked, `True` → everything, an array of the same SIZE is reshaped, one of size 1 is broadcast
+    (`numpy.resize`), any other size raises MaskError -/
+def maskArgBits (mask : PyVal) (n : Nat) : Option (Option (List Bool)) :=
+  match mask with
+  | .nomask => some Option.none
+  | .none => some (some (List.replicate n false))
+  | .bool b => some (some (List.replicate n b))
+  | .marr bits =>
+    if bits.length = n then some (some bits)
+    else match bits with
+      | [b] => some (some (List.replicate n b))
       | _ => Option.none
-    let f? : Option Bool := match dataFolded with
-      | .none => some false
-      | .bool b => some b
-      | _ => Option.none
-    let p? : Option (Option (List Str)) := match popIds with
-      | .none => some Option.none
-      | .strs l => if l.length = shape.length then some (some l) else Option.none
-      | _ => Option.none
-    let x? : Option (Option Str) := match extrapX with
-      | .none => some Option.none
-      | .num t => some (some t)
-      | _ => Option.none
-    match m?, f?, p?, x? with
-    | some m, some f, some p, some x =>
-      some { shape := shape, data := toks, mask := if mc then maskCorners m else m, folded := f, popIds := p, extrapX := x }
-    | _, _, _, _ => Option.none
+  | _ => Option.none
+
+/-- the mask an array-like value brings along (a plain array: nothing masked) -/
+def ownMaskOf (own : Option Spec) (n : Nat) : List Bool :=
+  match own with | some fs => fs.mask | Option.none => List.replicate n false
+
+/-- `numpy.ma.masked_array(data, mask=…, dtype=…, copy=…, fill_value=…, keep_mask=…, shrink=…)` (the parameters dadi
+    passes; `subok`, `ndmin`, `hard_mask`, `order` at numpy's defaults).  Entries are opaque tokens, so `dtype` must be `float`;
+    `copy` and `shrink` do not change any value; `fill_value=None` means numpy's default for floats (1e20), or the fill value of a
+    Spectrum passed as `data` (taken to be the constructor's default nan).  With a masked `data` and `keep_mask` the masks are OR-ed.  A Spectrum passed as
+    `data` hands its attributes on (`__array_finalize__` of the view numpy takes). -/
+def maNew (data mask dtype copy fill_value keep_mask shrink : PyVal) : Option Obj :=
+  match copy, keep_mask, shrink with
+  | .bool _, .bool keep, .bool _ =>
+    let dtypeOk : Bool := match dtype with | .ty name => name == "float" | .none => true | _ => false
+    if !dtypeOk then Option.none else
+    match baseOf data with
+    | Option.none => Option.none
+    | some (shape, toks, own) =>
+      match maskArgBits mask toks.length with
+      | Option.none => Option.none
+      | some m? =>
+        let ownMask : List Bool := ownMaskOf own toks.length
+        let m : List Bool := match m? with
+          | Option.none => ownMask
+          | some bits => if keep then List.zipWith (· || ·) bits ownMask else bits
+        let fill? : Option PyVal := match fill_value with
+          | .num t => some (.num t)
+          | .none => some (.num (match own with | some _ => NANTOK | Option.none => FLOAT_DEFAULT_FILL))
+          | _ => Option.none
+        match fill? with
+        | Option.none => Option.none
+        | some fill =>
+          some { shape := shape, data := toks, mask := m, fillValue := fill,
+                 folded := own.map fun fs => .bool fs.folded,
+                 popIds := own.map fun fs => labelsVal fs.popIds,
+                 extrapX := own.map fun fs => numVal fs.extrapX,
+                 warnings := [] }
   | _, _, _ => Option.none
+
+/-- `numpy.ma.masked_array.__array_finalize__(self, obj)`: a view takes mask and fill value of the array it views -/
+def maFinalize (self obj : Obj) : Obj := { self with mask := obj.mask, fillValue := obj.fillValue }
+
+/-- `a.view(subtype)`: the same array seen as a Spectrum; numpy calls `__array_finalize__(new, a)` (the translated method is
+    passed in) on a new object that has none of dadi's attributes yet -/
+def viewSubtype (finalize : Obj → Obj → Option Obj) (a : Obj) : Option Obj :=
+  finalize { a with folded := Option.none, popIds := Option.none, extrapX := Option.none } a
+
+/-- `getattr(obj, name, default)` on an object -/
+def Obj.getAttrD (o : Obj) (name : String) (dflt : PyVal) : PyVal :=
+  if name == "folded" then o.folded.getD dflt else if name == "pop_ids" then o.popIds.getD dflt
+  else if name == "extrap_x" then o.extrapX.getD dflt else dflt
+
+/-- `logger.warning(msg)` while building `o` -/
+def Obj.warn (o : Obj) (msg : Str) : Obj := { o with warnings := o.warnings ++ [msg] }
+
+/-- `a.flat[i] = v` for a Python index (negative = from the end); `none` = IndexError -/
+def setFlat (m : List Bool) (i : Int) (v : Bool) : Option (List Bool) :=
+  let n : Int := m.length
+  let j : Int := if i < 0 then i + n else i
+  if 0 ≤ j ∧ j < n then some (m.set j.toNat v) else Option.none
+
+/-- how `a[idx] = v` with `idx` built from `slice(None)` repeated `ndim` times behaves: a TUPLE of slices (or `...`) selects
+    everything; a LIST of slices is an IndexError in numpy ≥ 1.23 ("only integers, slices … are valid indices") -/
+inductive SliceIdx where
+  | listOfSlices
+  | tupleOfSlices
+  | ellipsis
+deriving DecidableEq, Repr
+
+def setAll (m : List Bool) (idx : SliceIdx) (v : Bool) : Option (List Bool) :=
+  match idx with
+  | .listOfSlices => Option.none
+  | .tupleOfSlices => some (List.replicate m.length v)
+  | .ellipsis => some (List.replicate m.length v)
+
+/-! ### the folding check of `Spectrum.__new__` (warnings only) -/
+
+/-- `numpy.sum(subarr.sample_sizes)`: Σ (d − 1) -/
+def totalSamples (shape : List Nat) : Int := shape.foldr (fun (d : Nat) (acc : Int) => Int.ofNat d - 1 + acc) 0
+/-- `int(t / 2)` (true division, then truncation toward zero) -/
+def intHalf (t : Int) : Int := t.tdiv 2
+/-- `subarr._total_per_entry()`, C order: the sum of the indices of every entry -/
+def idxSums : List Nat → List Nat
+  | [] => [0]
+  | d :: ds => (List.range d).flatMap fun i => (idxSums ds).map (· + i)
+/-- `total_per_entry > h` -/
+def gtEach (sums : List Nat) (h : Int) : List Bool := sums.map fun (s : Nat) => decide (Int.ofNat s > h)
+
+/-- does a number token denote zero (`float(t) == 0`)?  Decimal (`0`, `-0`, `0.0`, `0e-5`) and C99 hex (`0x0.0p+0`) forms; `nan`,
+    `inf` are not zero.  The only interpretation of a token the model makes (tied by K, op `c14.iszero`). -/
+def tokIsZero (t : Str) : Bool :=
+  let u : Str := match t with | '-' :: r => r | '+' :: r => r | _ => t
+  match u with
+  | '0' :: 'x' :: r =>
+    let mant := r.takeWhile fun c => c != 'p' && c != 'P'
+    mant.any (· == '0') && mant.all fun c => c == '0' || c == '.'
+  | _ =>
+    let mant := u.takeWhile fun c => c != 'e' && c != 'E'
+    mant.any (· == '0') && mant.all fun c => c == '0' || c == '.'
+
+/-- `numpy.all(subarr.data[where] == 0)` -/
+def allZeroAt (data : List Str) (wh : List Bool) : Bool := (data.zip wh).all fun tw => !tw.2 || tokIsZero tw.1
+/-- `numpy.all(subarr.mask[where])` -/
+def allTrueAt (mask : List Bool) (wh : List Bool) : Bool := (mask.zip wh).all fun mw => !mw.2 || mw.1
+
+/-- short-circuit `and` / `or` / `not` on conditions that may raise -/
+def oAnd (a b : Option Bool) : Option Bool := a.bind fun x => if x then b else some false
+def oOr (a b : Option Bool) : Option Bool := a.bind fun x => if x then some true else b
+def oNot (a : Option Bool) : Option Bool := a.map (!·)
+
+/-! ### normal form of the constructor -/
+
+/-- the mask of the new object: the `mask=` argument (`None` / `nomask`: nothing, `True`/`False`: everything / nothing, an array
+    of the same size, or of size 1 broadcast) OR-ed with the mask `data` brings along -/
+def ctorMask (mask : PyVal) (n : Nat) (ownMask : List Bool) : Option (List Bool) :=
+  match mask with
+  | .none => some ownMask
+  | .nomask => some ownMask
+  | .bool b => some (List.zipWith (· || ·) (List.replicate n b) ownMask)
+  | .marr bits =>
+    if bits.length = n then some (List.zipWith (· || ·) bits ownMask)
+    else match bits with
+      | [b] => some (List.zipWith (· || ·) (List.replicate n b) ownMask)
+      | _ => Option.none
+  | _ => Option.none
+
+/-- `folded`: the argument, else the status of `data`, else False; a contradiction between the two raises -/
+def ctorFolded (dataFolded : PyVal) (own : Option Spec) : Option Bool :=
+  match dataFolded, own with
+  | .none, Option.none => some false
+  | .none, some fs => some fs.folded
+  | .bool b, Option.none => some b
+  | .bool b, some fs => if b = fs.folded then some b else Option.none
+  | _, _ => Option.none
+
+/-- `pop_ids`: the argument (one label per axis, unless it just repeats the labels of `data`), else the labels of `data` -/
+def ctorPopIds (popIds : PyVal) (own : Option Spec) (ndim : Nat) : Option (Option (List Str)) :=
+  match popIds, own with
+  | .none, Option.none => some Option.none
+  | .none, some fs => some fs.popIds
+  | .strs l, Option.none => if l.length = ndim then some (some l) else Option.none
+  | .strs l, some fs => if fs.popIds = some l then some (some l)
+                        else if l.length = ndim then some (some l) else Option.none
+  | _, _ => Option.none
+
+def ctorExtrap (extrapX : PyVal) : Option (Option Str) := asNum extrapX
+
+/-- `if mask_corners: subarr.mask_corners()` — IndexError on an array without entries -/
+def ctorCorners (mc : Bool) (m : List Bool) : Option (List Bool) :=
+  if mc then (if m.isEmpty then Option.none else some (maskCorners m)) else some m
+
+/-- `Spectrum.__new__(data, mask, mask_corners, data_folded, check_folding, pop_ids=…, extrap_x=…)`, the other parameters at
+    their defaults — hand-written NORMAL FORM; the driver runs the TRANSLATED `Gen.FileIO.spectrumNew`, proved equal on
+    well-typed arguments in Props/C14.lean (`C14_construct_translated`).  `data` is a plain array or an existing Spectrum;
+    `check_folding` only controls warnings.  `none` = the call raises (wrong label count, mask of another size, a folding status
+    that contradicts the one of `data`, `mask_corners` on an array without entries, wrong argument types). -/
+def construct (data mask maskCornersArg dataFolded checkFolding popIds extrapX : PyVal) : Option Spec :=
+  match maskCornersArg, checkFolding with
+  | .bool mc, .bool _ =>
+    (baseOf data).bind fun b =>
+    (ctorMask mask b.2.1.length (ownMaskOf b.2.2 b.2.1.length)).bind fun m =>
+    (ctorFolded dataFolded b.2.2).bind fun f =>
+    (ctorPopIds popIds b.2.2 b.1.length).bind fun p =>
+    (ctorExtrap extrapX).bind fun x =>
+    (ctorCorners mc m).map fun m' =>
+      { shape := b.1, data := b.2.1, mask := m', folded := f, popIds := p, extrapX := x }
+  | _, _ => Option.none
 
 /-! ## readers -/
 
@@ -364,8 +618,25 @@ def maskArg : Option (List Nat × List Str) → Option PyVal
 /-- text or binary: `gzip.open` is binary unless the mode has a `t`; `open` is text unless the mode has a `b` -/
 def textMode (o : String × Str) : Bool := if o.1 == "gzip.open" then o.2.contains 't' else !(o.2.contains 'b')
 
-/-- entries of a masked array after `data.filled()` (Spectrum's fill value is nan) -/
-def filledRow (data : List Str) (mask : List Bool) : List Str :=
-  List.zipWith (fun t b => if b then NANTOK else t) data mask
+/-- entries of a masked array after `data.filled()`: masked entries are replaced by the array's fill value -/
+def filledRowWith (fill : Str) (data : List Str) (mask : List Bool) : List Str :=
+  List.zipWith (fun t b => if b then fill else t) data mask
+
+/-- … for a Spectrum built with the constructor's default `fill_value` (nan: `C14_fill_value_nan`) -/
+def filledRow (data : List Str) (mask : List Bool) : List Str := filledRowWith NANTOK data mask
+
+/-! ## the format string of the data line -/
+
+/-- `'%.<p>g'` -/
+def gFormat (p : Nat) : Str := ['%', '.'] ++ fmtI p ++ ['g']
+
+/-- the precision a printf conversion `%.<digits>g` asks for (`none`: not of that form) -/
+def precisionOf (f : Str) : Option Nat :=
+  match f with
+  | '%' :: '.' :: r =>
+    match r.reverse with
+    | 'g' :: ds => if ds.isEmpty then Option.none else parseDigits ds.reverse 0
+    | _ => Option.none
+  | _ => Option.none
 
 end DadiVerif.FileFormat
